@@ -158,8 +158,15 @@ func (h *HelloElemVersionBitmap) UnmarshalBinary(data []byte) error {
 	}
 	read += int(h.HelloElemHeader.Len())
 
+	// the element ends after Length bytes; further elements may follow
+	if int(h.Length) < read {
+		return errors.New("The hello element length is too short.")
+	}
+	if int(h.Length) < length {
+		length = int(h.Length)
+	}
 	h.Bitmaps = make([]uint32, 0)
-	for read < length {
+	for read+4 <= length {
 		h.Bitmaps = append(h.Bitmaps, binary.BigEndian.Uint32(data[read:read+4]))
 		read += 4
 	}
@@ -226,15 +233,23 @@ func (h *Hello) UnmarshalBinary(data []byte) error {
 	h.Elements = make([]HelloElem, 0)
 	for next < len(data) {
 		e := NewHelloElemHeader()
-		e.UnmarshalBinary(data[next:])
+		if err = e.UnmarshalBinary(data[next:]); err != nil {
+			return err
+		}
+		if e.Length < 4 {
+			return errors.New("The hello element length is too short.")
+		}
 
 		switch e.Type {
 		case HelloElemType_VersionBitmap:
 			v := NewHelloElemVersionBitmap()
-			err = v.UnmarshalBinary(data[next:])
-			next += int(v.Len())
+			if err = v.UnmarshalBinary(data[next:]); err != nil {
+				return err
+			}
 			h.Elements = append(h.Elements, v)
 		}
+		// elements are padded to 8 bytes; unknown elements are skipped
+		next += (int(e.Length) + 7) / 8 * 8
 	}
 	return err
 }
